@@ -27,3 +27,38 @@ chk("C03", "exploration", "E1-refmodel",
     "After every operation of generated histories the file is reopened with the same key and the reopened state must equal the model state reached by the acknowledged operations, the next put on every name (on a copy) must receive latest+1, and the file must be bit-for-bit, inode and mtime unchanged by Open. Six fixture databases written by the pinned commit (two key kinds; empty, small with deleted/non-1-active/recreated secrets, 200 secrets) must open with identical contents and counters.",
     "Trusted: the map model; 'earlier build' is the pinned commit only; restart = second Open in the same process while the first handle is idle.",
     "DESIGN.md section 4, C03")
+
+ENGINES += [
+ {"name": "E4-virtual-time", "path": "harness/internal/fakesvc", "serves_properties": ["C10","C11","C12","C13","C15","C16","C17","C19","C20"], "kind_free_text": "trace checker over the request log of a scripted StoreClient / S3 endpoint, on virtual time (testing/synctest) or an injected clock; predicates over the log and over what handles, caches and return values show"},
+]
+VT = "Trusted: testing/synctest virtual time and the scripted service in harness/internal/fakesvc (always honours ctx). "
+chk("C10", "exploration", "E4-virtual-time",
+    "virtual-time trace checker (testing/synctest): NewStore against a scripted service; predicates over the stamped request log and the instant/result of the return",
+    "Tens of thousands of generated configurations (declared-name sets with duplicates via Secrets and run-time generated tagged structs; 14 kinds of cache content incl. partially well-typed invalid documents; per-secret failure/recovery scripts over virtual time; background/deadline/cancel contexts; scripted client and real FileClient; misconfigurations) run inside synctest bubbles. Checked: nil return only with every declared value present and from the right source, no request for a name already obtained or supplied by a valid cache, pauses between rounds <= 5 s, zero requests and zero elapsed time with a complete cache, return <= 100 ms (virtual) after the context ends and never earlier with an error, bounded progress once scripts turn ok, immediate failure with a FileClient lacking a secret, misconfiguration rejected up front without panic.",
+    VT + "'A few seconds' = 5 s; 'promptly' = 100 ms virtual; unbounded 'keeps retrying' restated as bounded progress.",
+    "DESIGN.md section 4, C10")
+chk("C11", "exploration", "E4-virtual-time",
+    "virtual-time trace checker over a scripted service with a version timeline + real server/client histories under the race detector",
+    "A: generated histories of service changes (forwards, backwards, bursts, inside a held request), polls with per-request failure/hold scripts, lookups, sleeps past the expiry age with live unread handles; after every nil Refresh each known secret's cached (version, bytes) must have been the service's active pair at some instant of that poll's window, failed polls must change nothing, a final clean poll must converge exactly, handles and cache must agree. Background cadence within +/-10% over 12 intervals per store, K overlapping refreshes = one round of requests, a joined caller never gets nil from a cut-short poll. B: real db+server+HTTP client, random server-side histories alternating with Refresh, handles must equal DB.Get.",
+    VT + "Freshness judged by version number (service never reuses a number for other bytes); window = [Refresh call, return].",
+    "DESIGN.md section 4, C11")
+chk("C12", "exploration", "E3-race",
+    "Go race detector + online value monitors over concurrent readers vs pollers/lookups/expiry/Close; parked-request probe with stack-sample witness",
+    "16 reader goroutines validate every value returned by handles (self-describing name|serial|random|crc values, so torn, foreign and never-served bytes are recognised), per-reader and cross-reader install-order monotonicity, read-after-completed-poll freshness (sole-poller mode), while a background poller on a fast ticker, explicit refreshers, an ever-changing service, lookups, expiry sweeps and Close run concurrently under -race; readers continue after Close. Probes: while one request of a poll/lookup is parked in the service, 100 calls of every handle must complete; handles obtained mid-poll for stale cached secrets must survive the poll.",
+    "Race freedom and ordering are claimed only for the interleavings the stress produced (counts in evidence). A stuck probe is a violation only with the prober on the store mutex in three consecutive stack samples; otherwise inconclusive.",
+    "DESIGN.md section 4, C12")
+chk("C15", "exploration", "E4-virtual-time",
+    "monitor objects (instrumented builder and io.Closer values) over sequential histories with exact expectations + concurrent Get/install runs under the race detector",
+    "Sequential: up to 5 updaters on 2 secrets; installs (0..4 between Gets, some with a failing cache write), updaters created while an install lands during their initial build, scripted builder failures; per Get: builder invoked iff an install happened since the previous Get/creation, with the newest installed bytes, previous value and Err on failure, Err cleared after success, replaced values closed exactly once and the current one never. Concurrent: 8 Get goroutines vs an installer; a Get that began after install k completed must return a value built from install >= k; final value newest; close counts.",
+    "An install is observed at the store boundary (bytes yielded by a handle changed across a Refresh). Gets overlapping an install may return either value.",
+    "DESIGN.md section 4, C15")
+chk("C16", "exploration", "E4-virtual-time",
+    "virtual-time trace checker (testing/synctest) with an in-flight gauge at the scripted service + real-time lookup stress under the race detector",
+    "Generated cases with both AllowLookup settings, service modes (ok, slow, fail, fail-then-ok, hang for ever, not found) and 1-6 callers per name (LookupSecret/NewUpdater/Fields.Apply; background, deadline, cancelled contexts; staggered starts). Checked: disabled => Secret panics, the others error, zero requests; enabled => at most one request in flight per name, simultaneous callers of a healthy service share exactly one request, every nil return yields the served bytes, installed iff a request returned a value (then polled and cached, else absent from store and cache), no request strictly after the last caller returned, callers without deadline answered within 5 min (+1 s) of their own call, and an error returned while the caller's own context is alive must be explained by a real failure of a request overlapping its call.",
+    VT + "The pinned tree violated the 5-minute clause (fixed in /repo commit 432795b).",
+    "DESIGN.md section 4, C16")
+chk("C19", "exploration", "E1-refmodel",
+    "reference-model monitor on an injected whole-second clock across process restarts; presence observed via every cache payload, the request log and Secret()",
+    "Histories of lookups, reads, handle/watcher creation (also while a poll is in flight), service changes, polls, clock jumps around the expiry age and restarts from the last payload with changing declared sets and ages {0,-1s,1s,1h,30d}; start-up caches with stamps 0/stale/fresh/future. A name may disappear only at a poll and only if the model says undeclared, age configured, unread for longer than the age and never handed out; every payload's lastAccess must equal the model's last read; kept secrets must still be polled, dropped ones never again; stamps must survive a clean shutdown.",
+    "Keeping a secret the rule allows to drop is not a violation ('only if'). Clock steps are whole seconds.",
+    "DESIGN.md section 4, C19")
